@@ -104,13 +104,13 @@ void family_queue() {
     std::vector<std::thread> th;
     if (!limited) {
         cocls::queue<Msg> q;
-        for (int p = 0; p < np; p++) th.emplace_back([&q, p, per] { for (int i = 0; i < per; i++) { long v = p * 100 + i + 1; q.push(Msg{v, v * 2, v * 3}); } (void)q.size(); (void)q.empty(); });
+        for (int p = 0; p < np; p++) th.emplace_back([&q, p, per] { for (int i = 0; i < per; i++) { long v = p * 100 + i + 1; q.push(Msg{v, v * 2, v * 3}); dsim::cell_add(OBS + 9, (long)q.size() + (q.empty() ? 1 : 0)); } });
         int given = 0;
         for (int c = 0; c < nc; c++) { int n = c == nc - 1 ? total - given : total / nc; given += n; th.emplace_back([&q, n, k = ck[c]] { if (k) q_consumer(q, n).join(); else for (int i = 0; i < n; i++) { auto f = q.pop(); Msg m = f.wait(); m.check(); dsim::cell_add(SUM, m.a); } }); }
         for (auto &t : th) t.join();
     } else {
         cocls::limited_queue<Msg> q(1 + dsim::choose(2));
-        for (int p = 0; p < np; p++) th.emplace_back([&q, p, per] { for (int i = 0; i < per; i++) { long v = p * 100 + i + 1; auto f = q.push(Msg{v, v * 2, v * 3}); f.wait(); } (void)q.size(); });
+        for (int p = 0; p < np; p++) th.emplace_back([&q, p, per] { for (int i = 0; i < per; i++) { long v = p * 100 + i + 1; auto f = q.push(Msg{v, v * 2, v * 3}); f.wait(); dsim::cell_add(OBS + 9, (long)q.size()); } });
         int given = 0;
         for (int c = 0; c < nc; c++) { int n = c == nc - 1 ? total - given : total / nc; given += n; th.emplace_back([&q, n, k = ck[c]] { if (k) lq_consumer(q, n).join(); else for (int i = 0; i < n; i++) { auto f = q.pop(); Msg m = f.wait(); m.check(); dsim::cell_add(SUM, m.a); } }); }
         for (auto &t : th) t.join();
@@ -144,7 +144,7 @@ void family_pool() {
         });
         std::thread stopper;
         if (stop_mode == 1) stopper = std::thread([&pool] { pool.stop(); });
-        if (stop_mode == 2) { (void)pool.is_stopped(); (void)pool.any_enqueued(); }
+        if (stop_mode == 2) for (int k = 0; k < 3; k++) { dsim::cell_add(OBS + 9, (pool.is_stopped() ? 1 : 0) + (pool.any_enqueued() ? 2 : 0)); std::this_thread::yield(); }
         for (auto &t : th) t.join();
         if (stopper.joinable()) stopper.join();
     }
